@@ -471,6 +471,9 @@ class Parser(object):
             line = line.strip()[1:].strip()
             if line.lstrip().lower().startswith("language:"):
                 language = line[9:].strip()
+                if language not in i18n.languages:
+                    raise ParserError(u"Unknown language: %s" % language,
+                                      self.line, self.filename, line)
                 self.language = language
                 self.keywords = i18n.languages[language]
             return
